@@ -166,7 +166,11 @@ def gen_case(rng, stats, extra):
     elif x < 0.6:
         try:
             from .. import xunusual
-            tool, text, fam = 'x', xunusual.gen_source(rng), 'x-unusual'
+            if rng.random() < 0.3:
+                # symbols that get a location only through an unusual statement: assignments to a procedure-local val
+                tool, text, fam = 'x', xunusual.gen_source(rng, 'assign-to-val'), 'x-assign-to-local-val'
+            else:
+                tool, text, fam = 'x', xunusual.gen_source(rng), 'x-unusual'
         except ImportError:
             P, inp, files = xgen.gen_program(rng, extra['tier'])
             tool, text, fam = 'x', xlang.p_prog(P), 'x'
